@@ -134,6 +134,8 @@ class GlobalFacts:
 
 G = GlobalFacts()
 
+_REF_EQ_RX = re.compile(r"^<&(?:'\w+ )?(.+?) as PartialEq(?:<&(?:'\w+ )?(.+)>)?>::(eq|ne)$")
+
 
 class State:
     __slots__ = ('heap', 'pc', 'events', 'counters', 'notes', 'facts', 'models')
@@ -618,6 +620,14 @@ class Interp:
             if z3.is_true(m.eval(cond, model_completion=True)):
                 self.stats['model_hits'] = self.stats.get('model_hits', 0) + 1
                 return True
+        if self.arith_feasibility:
+            from . import intify
+            res, payload, _ = intify.solve(list(st.pc) + list(G.facts) + [cond], 5000)
+            self.stats['feas_int'] = self.stats.get('feas_int', 0) + 1
+            if res == 'unsat':
+                return False
+            if res == 'sat':
+                return True
         try:
             t0 = time.time()
             key = self._fn_stack[-1][-50:] if self._fn_stack else '?'
@@ -643,6 +653,7 @@ class Interp:
             return True
 
     feas_timeout = 400
+    arith_feasibility = False  # set by checks whose kernels mix machine integers with num::BigInt
 
     trace_solver = None
     lazy = False  # lazy mode: branches are pruned only syntactically; infeasible paths carry an unsat pc
@@ -1116,6 +1127,11 @@ class Interp:
     def call(self, st, callee, args, ctx):
         """returns list of (state, Ret|Panic)"""
         self.stats['calls'] += 1
+        # `impl PartialEq<&B> for &A` (std) forwards to the referents: peel one reference level off callee and arguments
+        m = _REF_EQ_RX.match(callee)
+        if m and len(args) == 2 and all(isinstance(a, Ptr) for a in args):
+            inner = '<%s as PartialEq%s>::%s' % (m.group(1), ('<%s>' % m.group(2)) if (m.group(2) and m.group(2) != m.group(1)) else '', m.group(3))
+            return self.call(st, inner, [self.load(st, args[0]), self.load(st, args[1])], ctx)
         for table in (self.overrides, ):
             for rx, f in table:
                 if rx.search(callee):
